@@ -22,6 +22,7 @@ func init() {
 			"(R4, who-may-write) the archive path is written only through MarshalAndSaveProtobuf from newSession, reset and synchronize, and removed only by halt's terminate mode; " +
 			"(R5) result arity: the remote TransitionResponse is accepted only if len(Results) equals the number of transitions sent (the local side: C09.R1); " +
 			"(R6) core.Apply mutates only its own copy: every map update/delete targets memory derived from base.Copy(…)/change.New.Copy(…), inserted subtrees are copies, and a content map is allocated only when inserting (change.New != nil), never when deleting; a missing parent is an error. " +
+			"(R6 additions) Apply applies every change: no way through an iteration of its loop is without effect, a helper that walks to the parent is followed, and a tree pointer carried across iterations is re-derived when the root is replaced; " +
 			"Not decided: that Apply succeeds for every possible outcome mix (needs reasoning over trees), content of the serialized bytes.",
 		Assumptions: []string{"Entry.Copy(DeepPreservingLeaves) returns fresh directory nodes (C07.R1)"},
 		Run:         runC05,
